@@ -123,10 +123,12 @@ PROPS = {
         ],
         'soak': {'quick': [('chain', 200000), ('dots', 200000), ('branches', 100000), ('ringlist', 200000), ('ringchain', 290),
                            ('branchchain', 300000), ('macrocycle', 300000), ('comb', 200000), ('singlechain', 300000), ('dirchain', 300000),
-                           ('trace:branchchain', 300000), ('trace:chain', 300000), ('trace:macrocycle', 300000), ('trace:dots', 200000), ('trace:branches', 100000)],
+                           ('trace:branchchain', 300000), ('trace:chain', 300000), ('trace:macrocycle', 300000), ('trace:dots', 200000), ('trace:branches', 100000),
+                           ('trace:ladder', 300000)],
                  'thorough': [('chain', 1000000), ('dots', 1000000), ('branches', 500000), ('ringlist', 1000000), ('ringchain', 290), ('digits', 300000),
                               ('branchchain', 1000000), ('macrocycle', 1000000), ('comb', 1000000), ('singlechain', 1000000), ('dirchain', 1000000),
-                              ('trace:branchchain', 1000000), ('trace:chain', 1000000), ('trace:macrocycle', 1000000), ('trace:dots', 1000000), ('trace:branches', 500000)]},
+                              ('trace:branchchain', 1000000), ('trace:chain', 1000000), ('trace:macrocycle', 1000000), ('trace:dots', 1000000), ('trace:branches', 500000),
+                              ('trace:ladder', 1000000)]},
         'rule': 'depth: six size families with constant nesting (chain, dot list, branches on one atom, dot-separated rings, ring chain, ring digit '
                 'list) at 1..5000 (thorough 12000) atoms and two nested families up to depth 200: the activation counter of the hook is compared '
                 'with the model depth on every string (above the model = disagreement, below = reported only); read: the same comparison on the S-read strings; soak: read -> build -> walk -> write -> '
@@ -144,9 +146,9 @@ PROPS = {
             {'name': 'depth', 'panic_only': True},
         ],
         'soak': {'quick': [('nested', 100000), ('chain', 100000), ('dots', 200000), ('branches', 100000), ('ringlist', 200000),
-                           ('branchchain', 300000), ('macrocycle', 300000), ('singlechain', 300000)],
+                           ('branchchain', 300000), ('macrocycle', 300000), ('singlechain', 300000), ('trace:ladder', 300000)],
                  'thorough': [('nested', 100000), ('chain', 1000000), ('dots', 1000000), ('branches', 500000), ('ringlist', 1000000),
-                              ('branchchain', 1000000), ('macrocycle', 1000000), ('comb', 1000000), ('singlechain', 1000000), ('dirchain', 1000000)]},
+                              ('branchchain', 1000000), ('macrocycle', 1000000), ('comb', 1000000), ('singlechain', 1000000), ('dirchain', 1000000), ('trace:ladder', 1000000)]},
         'rule': 'every suite of the harness with the panic behaviour of every response field compared (a panic of the real code where the model has none is a '
                 'disagreement): bounded-exhaustive and random strings incl. multi-byte and control characters, all small adjacency lists '
                 'incl. garbage (dangling, self, duplicate, asymmetric bonds), random well-formed and mutated graphs up to 300 atoms, ring-rich '
